@@ -14,11 +14,9 @@ def harnesses(tier):
     fns = ["yash_env::Env::errexit_is_applicable", "yash_env::Env::apply_errexit"]
     b = "stack of %s frames (length arm-concrete, each frame kind of 7 symbolic); errexit option, exit status (all i32) symbolic"
     stubs = ["std::hash::RandomState::new -> fixed keys (HashMap::default would call getrandom)"]
-    hs = [
-        Harness("c10_errexit_0_2", b % "0-2", fns, "errexit applies iff option on and no Condition frame anywhere", timeout=900, stubs=stubs),
-        Harness("c10_errexit_3", b % "3", fns, "same, depth 3", timeout=900, stubs=stubs),
-        Harness("c10_errexit_4", b % "4", fns, "same, depth 4", timeout=1200, stubs=stubs),
-    ]
+    hs = [Harness("c10_errexit_%d" % n, b % str(n), fns, "errexit applies iff option on and no Condition frame anywhere",
+                  timeout=1200, stubs=stubs, cover_group="c10_errexit", recursion_bounds=core.LOCATION_RECURSION)
+          for n in range(0, 5)]
     return hs
 
 
